@@ -22,8 +22,8 @@ from vf import harness
 
 PROP = "C15"
 SHARDS = {"quick": 8, "thorough": 16}
-TIME_CAP = {"quick": 240, "thorough": 2700}   # wall-clock guard only (loaded machines); budgets are counts
-CPU_CAP = {"quick": 60, "thorough": 700}       # CPU seconds per worker (nominal: ~8 s quick, ~80 s thorough)
+TIME_CAP = {"quick": 600, "thorough": 2700}   # wall-clock guard only (loaded machines); budgets are counts
+CPU_CAP = {"quick": 150, "thorough": 900}      # CPU seconds per worker (nominal: ~8 s quick, ~80 s thorough)
 REQUIRED = ["histories", "steps_checked", "fields_set_checks", "is_set_checks", "serialize_default_checks", "serialize_all_checks",
             "op:ctor", "op:deser", "op:assign", "op:set", "op:set_overwrite", "op:unset", "op:replace",
             "override_constructors_histories", "old_instance_checks", "nested_serialize_checks", "nested_deserialize_checks", "global_setting_checks",
